@@ -420,28 +420,24 @@ fn judge(
                 }
                 let rest: Vec<&Rr> = (0..plain.len()).filter(|k| !used[*k]).map(|k| plain[k]).collect();
                 let rest_owners: BTreeSet<&Name> = rest.iter().map(|r| &r.owner).collect();
-                if !rest.is_empty() && rest.iter().all(|r| r.rtype == rz::T_NS) && rest_owners.len() == 1 && rest[0].owner != *cut && rest[0].owner != cur {
-                    // an NS RRset of another owner on the path (occluded NS below the cut)
+                if !rest.is_empty() && rest.iter().all(|r| r.rtype == rz::T_NS) && rest_owners.len() == 1 {
+                    // an NS RRset from the path sits in the ANSWER section instead of a referral
                     let o = &rest[0].owner;
-                    let rel = if o.strictly_below(cut) { "below-cut" } else { "other" };
-                    return v(
-                        format!("answer:exp={exp}:got=NS-OF-{rel}-IN-ANSWER"),
-                        format!("{qname} {tn}: authority ends at {cut}; the answer section carries the NS RRset of {o}"),
-                    );
-                }
-                if !rest.is_empty() && rest.iter().all(|r| r.rtype == rz::T_NS && r.owner == *cut) {
-                    // the cut's NS RRset sits in the ANSWER section instead of a referral
-                    return if i > 0 {
-                        v(
-                            "answer:cname-into-cut:exp=STOP-AT-CUT:got=NS-OF-CUT-IN-ANSWER".into(),
-                            format!("{qname} {tn}: the CNAME target {cur} lies at/below the cut {cut}; the cut's NS RRset is in the ANSWER section"),
-                        )
-                    } else {
-                        v(
-                            format!("answer:exp={exp}:got=NS-OF-CUT-IN-ANSWER:t={}", if qtype == rz::T_NS || qtype == rz::T_ANY { tn.as_str() } else { "other" }),
-                            format!("{qname} {tn}: below the cut {cut} a referral is due; the cut's NS RRset is in the ANSWER section (owner != qname)"),
-                        )
-                    };
+                    let rel = if o == cut { Some("CUT") } else if o.strictly_below(cut) { Some("below-cut") } else { None };
+                    if let Some(rel) = rel {
+                        if i > 0 {
+                            return v(
+                                format!("answer:cname-into-cut:exp=STOP-AT-CUT:got=NS-OF-{rel}-IN-ANSWER"),
+                                format!("{qname} {tn}: the CNAME target {cur} lies at/below the cut {cut}; the NS RRset of {o} is in the ANSWER section"),
+                            );
+                        }
+                        if *o != cur {
+                            return v(
+                                format!("answer:exp={exp}:got=NS-OF-{rel}-IN-ANSWER:t={}", if qtype == rz::T_NS || qtype == rz::T_ANY { tn.as_str() } else { "other" }),
+                                format!("{qname} {tn}: below the cut {cut} a referral is due; the NS RRset of {o} is in the ANSWER section (owner != qname)"),
+                            );
+                        }
+                    }
                 }
                 if !here_rrs.is_empty() {
                     let types: BTreeSet<String> = here_rrs.iter().map(|r| rz::type_name(r.rtype)).collect();
@@ -477,11 +473,12 @@ fn judge(
     // no data from at/below a cut in the answer section (DS at the cut is parent-side data)
     for r in &plain {
         if let Some(cut) = zone.cut_on_path(&r.owner) {
-            if r.owner == cut && r.rtype == rz::T_NS && unjudged_tail && r.owner != *qname {
+            if r.rtype == rz::T_NS && unjudged_tail && r.owner != *qname {
                 // ANY: the server chased a CNAME it found and the chase ended at/below a cut
+                let rel = if r.owner == cut { "CUT" } else { "below-cut" };
                 return v(
-                    "answer:cname-into-cut:exp=STOP-AT-CUT:got=NS-OF-CUT-IN-ANSWER".into(),
-                    format!("{qname} {tn}: a chased CNAME leads to/below the cut {cut}; the cut's NS RRset is in the ANSWER section"),
+                    format!("answer:cname-into-cut:exp=STOP-AT-CUT:got=NS-OF-{rel}-IN-ANSWER"),
+                    format!("{qname} {tn}: a chased CNAME leads to/below the cut {cut}; the NS RRset of {} is in the ANSWER section", r.owner),
                 );
             }
             if !(r.owner == cut && r.rtype == rz::T_DS) {
